@@ -341,11 +341,12 @@ theorem step_imul (xs : List Val) (k : Int) (nt : Bool) (hx : Good xs) :
 
 /-! ### clear, sort, reverse -/
 
-theorem mem_insertSorted {a x : Val} {ys : List Val} (h : x ∈ insertSorted a ys) : x = a ∨ x ∈ ys := by
+theorem mem_insertSortedBy {lt : Val → Val → Bool} {a x : Val} {ys : List Val}
+    (h : x ∈ insertSortedBy lt a ys) : x = a ∨ x ∈ ys := by
   induction ys with
-  | nil => simp [insertSorted] at h; exact Or.inl h
+  | nil => simp [insertSortedBy] at h; exact Or.inl h
   | cons y ys ih =>
-    unfold insertSorted at h
+    unfold insertSortedBy at h
     split at h
     · simpa using h
     · rcases List.mem_cons.mp h with h | h
@@ -354,40 +355,45 @@ theorem mem_insertSorted {a x : Val} {ys : List Val} (h : x ∈ insertSorted a y
         · exact Or.inl h
         · exact Or.inr (List.mem_cons_of_mem _ h)
 
-theorem mem_foldl_insertSorted {x : Val} (xs acc : List Val)
-    (h : x ∈ xs.foldl (fun acc x => insertSorted x acc) acc) : x ∈ acc ∨ x ∈ xs := by
+theorem mem_foldl_insertSortedBy {lt : Val → Val → Bool} {x : Val} (xs acc : List Val)
+    (h : x ∈ xs.foldl (fun acc x => insertSortedBy lt x acc) acc) : x ∈ acc ∨ x ∈ xs := by
   induction xs generalizing acc with
   | nil => exact Or.inl h
   | cons y ys ih =>
     rcases ih _ h with h | h
-    · rcases mem_insertSorted h with h | h
+    · rcases mem_insertSortedBy h with h | h
       · exact Or.inr (by simp [h])
       · exact Or.inl h
     · exact Or.inr (List.mem_cons_of_mem _ h)
 
-theorem mem_insertionSort {x : Val} {xs : List Val} (h : x ∈ insertionSort xs) : x ∈ xs := by
-  rcases mem_foldl_insertSorted xs [] h with h | h
+theorem mem_insertionSortBy {lt : Val → Val → Bool} {x : Val} {xs : List Val}
+    (h : x ∈ insertionSortBy lt xs) : x ∈ xs := by
+  rcases mem_foldl_insertSortedBy xs [] h with h | h
   · cases h
   · exact h
 
-theorem mem_pySort {xs ys : List Val} {rev : Bool} (h : pySort xs rev = .ok ys) : ∀ x ∈ ys, x ∈ xs := by
+theorem mem_pySort {xs ys : List Val} {rev : Bool} {key : SortKey} (h : pySort xs rev key = .ok ys) :
+    ∀ x ∈ ys, x ∈ xs := by
   unfold pySort at h
   split at h
-  · injection h with h; subst h; exact fun _ hx => hx
+  · cases h
   · split at h
-    · cases h
-    · split at h
-      · injection h with h; subst h
-        intro x hx
-        have := mem_insertionSort (List.mem_reverse.mp hx)
-        exact List.mem_reverse.mp this
-      · injection h with h; subst h
-        exact fun _ hx => mem_insertionSort hx
+    · injection h with h; subst h; exact fun _ hx => hx
+    · simp only [] at h
+      split at h
+      · cases h
+      · split at h
+        · injection h with h; subst h
+          intro x hx
+          have := mem_insertionSortBy (List.mem_reverse.mp hx)
+          exact List.mem_reverse.mp this
+        · injection h with h; subst h
+          exact fun _ hx => mem_insertionSortBy hx
 
-theorem step_sort (xs : List Val) (rev nt : Bool) (hx : Clean xs) :
-    implL xs ⟨.sort rev, nt⟩ = specL xs ⟨.sort rev, nt⟩ := by
+theorem step_sort (xs : List Val) (rev : Bool) (key : SortKey) (nt : Bool) (hx : Clean xs) :
+    implL xs ⟨.sort rev key, nt⟩ = specL xs ⟨.sort rev key, nt⟩ := by
   simp only [implL, specL]
-  cases h : pySort xs rev with
+  cases h : pySort xs rev key with
   | error e => rfl
   | ok ys =>
     simp only [okNone]
